@@ -78,11 +78,13 @@ SameCircuit(j, k) == /\ EqsOf(C.fns[j].call) = EqsOf(C.fns[k].call)
                      /\ \A e \in EqsOf(C.fns[j].call) : Count(C.fns[j].call, e) = Count(C.fns[k].call, e)
                      /\ BlocksOf(C.fns[j].call) = BlocksOf(C.fns[k].call)
 DigestOf(call) == LET D == {i \in DOMAIN C.digests : C.digests[i].id = call} IN IF D = {} THEN "" ELSE C.digests[CHOOSE i \in D : TRUE].digest
+\* some OTHER pair of calls is inconsistent: then the split legitimately stops with that report
+AnyIncons == \E j, k \in Calls : j < k /\ C.fns[j].fname = C.fns[k].fname /\ ~SameCircuit(j, k)
 Inv_SameFn ==
     (\A i \in Eqs : OneCtx(C.eqs[i])) =>
         \A j, k \in Calls : (j < k /\ C.fns[j].fname = C.fns[k].fname) =>
             IF SameCircuit(j, k)
-            THEN (SplitRan /\ DigestOf(C.fns[j].call) = DigestOf(C.fns[k].call) /\ DigestOf(C.fns[j].call) # "")
+            THEN ((SplitRan \/ (AnyIncons /\ C.inconsistency_reported)) /\ DigestOf(C.fns[j].call) = DigestOf(C.fns[k].call) /\ DigestOf(C.fns[j].call) # "")
             ELSE (C.inconsistency_reported /\ (DigestOf(C.fns[k].call) = "" \/ DigestOf(C.fns[j].call) # DigestOf(C.fns[k].call)))
 
 \* ---- every sub-circuit call is glued to its caller by paired blocks listing all arguments and results, equal values
